@@ -27,7 +27,8 @@ COQ_HEADER = """From Coq Require Import List PrimFloat String.
 From LaPyV Require Import Base.Scalar Base.Vec3 Base.ListAux Model.TetMesh Model.TriaAdj Model.Conformal Chk.Cmp Chk.C09 Chk.C18.
 Import ListNotations. Open Scope float_scope."""
 COQ_CHECK = "check_c18_multi"
-COQ_LABELS = ["stereographic_pair", "beltrami_coefficient", "linear_beltrami_system_and_landmarks", "euler_gate", "final_inverse_projection"]
+COQ_LABELS = ["stereographic_pair", "beltrami_coefficient", "solver_answers_satisfy_model_systems_and_landmarks", "euler_gate_and_landmark_choice",
+              "final_projection_south_plane_and_moebius_image"]
 
 
 def _cx(rng, r=1.0):
@@ -214,8 +215,14 @@ def run_impl(case):
             P = np.array(case["v"], float)
             T = np.array(case["t"])
             m = TriaMesh(P.copy(), T.copy())
-            rec = {"bel": [], "lbs": []}
+            rec = {"bel": [], "lbs": [], "solve": []}
             ob, ol = conformal.beltrami_coefficient, conformal.linear_beltrami_solver
+            osv = conformal._sparse_symmetric_solve
+
+            def wsv(A, b, **kw):
+                x = osv(A, b, **kw)
+                rec["solve"].append(np.squeeze(np.array(x)).copy())
+                return x
 
             def wb(tr, mp):
                 r = ob(tr, mp)
@@ -227,6 +234,7 @@ def run_impl(case):
                 rec["lbs"].append((np.array(tr.v, float).copy(), np.array(mu).copy(), np.array(lmk).copy(), np.array(tg, float).copy(), np.array(r, float).copy()))
                 return r
             conformal.beltrami_coefficient, conformal.linear_beltrami_solver = wb, wl
+            conformal._sparse_symmetric_solve = wsv
             try:
                 S = conformal.spherical_conformal_map(m)
                 out["S"] = np.asarray(S, float).tolist()
@@ -234,6 +242,10 @@ def run_impl(case):
                 out["S"] = core.errkind(e) + ":" + str(e)[:100]
             finally:
                 conformal.beltrami_coefficient, conformal.linear_beltrami_solver = ob, ol
+                conformal._sparse_symmetric_solve = osv
+            if rec["solve"] and rec["lbs"]:
+                out["z0"] = _pairs(rec["solve"][0])
+                out["lm_first"] = [int(x) for x in rec["lbs"][0][2]]
             out["untouched"] = bool(np.array_equal(m.v, P) and np.array_equal(m.t, T))
             out["vol_in"] = float(m.volume()) if m.is_oriented() else None
             q = m.tria_qualities()
@@ -257,6 +269,7 @@ def run_impl(case):
                     try:
                         Sm, res = conformal.mobius_area_correction_spherical(m, np.array(out["S"]))
                         out["Sm"] = np.asarray(Sm, float).tolist()
+                        out["mobius_x"] = [float(q) for q in res.x]
                         at = m.tria_areas()
                         at = at / at.sum()
 
@@ -307,6 +320,13 @@ def coq_case(case, out):
         parts.append("CLbs %s %s %s %s %s (Ok %s)" % ("0x1.ad7f29abcaf48p-24", core.cv3list(L["v"]), core.ctuples(case["t"]), _cl(L["mu"]), lm, _cl(L["x"])))
         if not isinstance(out["S"], str) and not np.isnan(np.sum(L["x"])):
             parts.append("CFinal %s %s %s" % (TOL, _cl(L["x"]), core.cv3list(out["S"])))
+    if "z0" in out and "bel" in out and out["bigtri_unique"] and not isinstance(out["S"], str) and np.all(np.isfinite(np.array(out["z0"]))):
+        parts.append("CNorth %s %s %s %s %s %s" % ("0x1.ad7f29abcaf48p-24", core.cv3list(case["v"]), core.ctuples(case["t"]), _cl(out["z0"]),
+                                                  core.cv3list(out["bel"]["v"]), core.cnlist(out["lm_first"])))
+    if "mobius_x" in out and not isinstance(out.get("Sm"), str):
+        x = out["mobius_x"]
+        parts.append("CMobius %s (%s, %s) (%s, %s) (%s, %s) (%s, %s) %s %s" % (
+            "0x1.ad7f29abcaf48p-24", *[core.cfloat(q) for q in x], core.cv3list(out["S"]), core.cv3list(out["Sm"])))
     if not parts:
         return None
     return "[" + "; ".join(parts) + "]"
